@@ -576,7 +576,7 @@ def translate(repo, key, out):
 
 def main():
     repo = os.environ.get("VERIF_REPO", "/repo")
-    which = sys.argv[2:] or ["sock", "reader"]
+    which = sys.argv[2:] or ["sock", "reader"]       # the module is named after the file: SrcOSock.v / SrcOReader.v / SrcO.v (both)
     out = ["(* GENERATED by tools/gen_src2.py from %s/src/pyrtcm/{socketwrapper,rtcmreader,rtcmtypes_core,exceptions}.py -- do not edit *)" % repo,
            "From Coq Require Import ZArith List String.", "From PyRtcm Require Import Src.PyO.",
            "Import ListNotations.", "Open Scope string_scope.", "Open Scope Z_scope.", ""]
